@@ -487,6 +487,14 @@ def prev_minus_new(model: Model, fi: FuncInfo) -> dict:
             for n, b in afind('V_x[V_r.index()] = V_r', lp, {'V_r': lp.target.id}):
                 out['table'] = b['V_x']
                 out['filled'] = True
+    if out['table'] is None:
+        # the same thing as a comprehension:  X = {r.index(): r for r in previous}
+        for n in walk_no_nested(fi.node):
+            if isinstance(n, (ast.Assign, ast.AnnAssign)) and n.value is not None:
+                tg = n.targets[0] if isinstance(n, ast.Assign) else n.target
+                if isinstance(tg, ast.Name) and amatch('{V_r.index(): V_r for V_r in V_p}', n.value, {'V_p': prev}) is not None:
+                    out['table'] = tg.id
+                    out['filled'] = True
     x = out['table']
     if x is None:
         return out
